@@ -128,7 +128,7 @@ EMITTED = {"out1_", "v_", "it_", "oivld", "sub_while", "run_for_o", "run_while",
            "heap_push", "ivl", "ctl", "step", "exn",
            "res_bind", "sub_for", "py_set_index", "list_set_nat", "any_mut", "any_mut_at", "py_max", "py_min",
            "py_enumerate", "fs_of_list", "fs_insert", "forallb", "existsb", "combine", "r_", "m_", "b_",
-           "opt_eqb", "dict_set", "dict_of", "dict_get", "dict_has", "keys_inter", "N_plus_Z", "x_"}
+           "run_for_r", "opt_eqb", "dict_set", "dict_of", "dict_get", "dict_has", "keys_inter", "N_plus_Z", "x_"}
 
 COQ_TYPE = {"Z": "Z", "OZ": "option Z", "B": "bool", "IVL": "ivl", "OIVL": "option ivl",
             "LIST": "list ivl", "U": "unit", "FS": "list Z"}
@@ -214,6 +214,7 @@ class Tr:
         #   dict(coq, args, ret, mutates)
         self.rec_methods = {k: v for k, v in known_funcs.items() if isinstance(k, tuple)}
         self.mut_names = {k[1] for k, v in self.rec_methods.items() if v["mutates"]}
+        self.res_body = False                            # inside the body of a run_for_r loop
         self.hoist = None                                # list of pending prefixes while a statement's
         self.cond_depth = 0                              #   expression is translated (see hoisted())
         self.fresh = 0
@@ -558,8 +559,14 @@ class Tr:
         if isinstance(e, ast.Call):
             return self.call(e, env)
         if isinstance(e, ast.List) and e.elts:
-            ts = [self.expr(x, env, "Z")[0] for x in e.elts]
-            return "[" + "; ".join(ts) + "]", "L:Z"
+            if want is not None and self.is_list(want):
+                ity = self.item_of(want)
+            else:
+                ity = self.expr0(e.elts[0], env)[1]
+                if ity in ("NONE",) or not self.is_type(ity):
+                    raise Unsupported("list literal of unknown element type")
+            ts = [self.expr(x, env, ity)[0] for x in e.elts]
+            return "[" + "; ".join(ts) + "]", ("LIST" if ity == "IVL" else "L:" + ity)
         if isinstance(e, ast.Tuple) and e.elts and want in self.tuples:
             comps = self.tuples[want]
             if len(comps) != len(e.elts):
@@ -950,8 +957,8 @@ class Tr:
         """a call of a generated function whose result is a res: `res_bind (f ..) (fun r => ..)` in front of
         the statement"""
         self.can_hoist(fn)
-        if not self.res or self.plain:
-            raise Unsupported(f"{fn} returns a res: only in a function with a res result, outside loops")
+        if not self.res or (self.plain and not (self.res_body and self.loop_depth == 1)):
+            raise Unsupported(f"{fn} returns a res: only in a function with a res result, outside nested loops")
         cs2 = dict(cs)
         if cs.get("fuel"):
             self.uses_fuel = True
@@ -1820,7 +1827,8 @@ class Tr:
             return "tt" if not items else (items[0] if len(items) == 1 else "(" + ", ".join(items) + ")")
         names = [cname(v) for v in state]
         unpack = "_" if not names else (names[0] if len(names) == 1 else "'(" + ", ".join(names) + ")")
-        stream, sty = self.expr0(s.iter, env)
+        (stream, sty), hs = self.hoisted(s.iter, env, lambda: self.expr0(s.iter, env))
+        pre, post, env = self.hoist_prefix(hs, env, pad)
         if not self.is_list(sty):
             raise Unsupported(f"loop over {sty}")
         env_loop = dict(env)
@@ -1846,9 +1854,14 @@ class Tr:
         env_after = dict(env_loop)
         env_after["$y"] = True
         rest_t = self.block(rest, env_after, fin, ind)
-        return (f"{pad}let '(out1_, {unpack.lstrip(chr(39))}) :=\n{p1}sub_for\n{p2}(fun {unpack} {cname(s.target.id)} =>\n"
+        saved_rb, self.res_body = self.res_body, False
+        try:
+            pass
+        finally:
+            self.res_body = saved_rb
+        return (f"{pre}{pad}let '(out1_, {unpack.lstrip(chr(39))}) :=\n{p1}sub_for\n{p2}(fun {unpack} {cname(s.target.id)} =>\n"
                 f"{p2}  let out := {nil} in\n{body_t})\n{p2}{pack(env)} {stream} in\n"
-                f"{pad}let out := out ++ out1_ in\n{rest_t}")
+                f"{pad}let out := out ++ out1_ in\n{rest_t}{post}")
 
     def inner_while(self, s, rest, env, fin, ind):
         """a `while` directly in the body of a generator's `for` (run_for_o): sub_while"""
@@ -1944,11 +1957,16 @@ class Tr:
             opt = is_for and any(isinstance(x, ast.While) for b in s.body for x in ast.walk(b))
             if opt and (not self.res or self.plain or env.get("$y")):
                 raise Unsupported("a loop nested in a loop needs a res result")
+            resb = is_for and not opt and any(self.has_res_call(b) for b in s.body)
+            if resb and (not self.res or self.plain or env.get("$y")):
+                raise Unsupported("a loop that calls a function with a res result needs a res result")
 
             def fin_body(e2, k, v=None):
                 ctl = {"end": "Cont", "continue": "Cont", "break": "Brk", "return": "Ret"}.get(k)
                 if ctl is None:
                     raise Unsupported(f"{k} inside a loop")
+                if resb:
+                    return f"RDone (out, {pack(e2)}, {ctl})"
                 return f"Some (out, {pack(e2)}, {ctl})" if opt else f"(out, {pack(e2)}, {ctl})"
 
             def fin_post(e2, k, v=None):
@@ -1958,11 +1976,13 @@ class Tr:
             self.loop_depth += 1
             self.plain += 1
             self.opt_body = opt
+            self.res_body = resb
             try:
                 body_t = self.block(s.body, env_body, fin_body, ind + 2)
             finally:
                 self.loop_depth -= 1
                 self.opt_body = False
+                self.res_body = False
             try:
                 # (variables assigned only inside the loop body are not in scope after the loop: a use
                 #  there is an unknown name, i.e. Unsupported)
@@ -1973,6 +1993,8 @@ class Tr:
                    f"{p1}(fun {unpack} =>\n{p2}let out := {nil} in\n{post_t})\n")
             if opt:
                 return f"{pad}run_for_o\n{fns}{p1}{pack(env)} {stream}"
+            if resb:
+                return f"{pad}run_for_r\n{fns}{p1}{pack(env)} {stream}"
             if is_for:
                 text = f"run_for\n{fns}{p1}{pack(env)} {stream}"
                 if env.get("$y"):
@@ -2017,6 +2039,8 @@ class Tr:
         env = {"$nn": frozenset(), "$y": False}
         params = [f"{{{v} : Type}}" for v in spec.get("tyvars", [])]
         body = list(fdef.body)
+        if spec.get("returned_generator"):
+            body = self.inline_returned_generator(body, spec["returned_generator"])
         if spec.get("stop_after_loop"):
             # only the statements up to and including the first loop are translated
             idx = [i for i, s in enumerate(body) if isinstance(s, (ast.For, ast.While))]
@@ -2191,6 +2215,44 @@ class Tr:
         has_loop = any(isinstance(s, (ast.For, ast.While)) for s in body)
         head = "" if (has_loop and not self.uses_out_before_loop(body)) else f"  let out := @nil {self.out_type} in\n"
         return f"Definition {name} {' '.join(params)} : {full} :=\n{head}{text}.\n"
+
+    @staticmethod
+    def inline_returned_generator(body, gname):
+        """def f(..): PRE; def g(): GEN_BODY; return g()   — f returns the generator g() —   is read as the
+        generator  PRE; GEN_BODY  where an earlier `return e` of f becomes `yield from e; return`.
+        Accepted only if g has no parameters, no nonlocal/global, is defined at the top level of f just
+        before the final `return g()`, and is mentioned nowhere else."""
+        if len(body) < 2:
+            raise Unsupported("returned generator shape")
+        g, last = body[-2], body[-1]
+        if not (isinstance(g, ast.FunctionDef) and g.name == gname and not g.decorator_list and
+                not (g.args.args or g.args.posonlyargs or g.args.kwonlyargs or g.args.vararg or g.args.kwarg) and
+                isinstance(last, ast.Return) and isinstance(last.value, ast.Call) and
+                isinstance(last.value.func, ast.Name) and last.value.func.id == gname and
+                not last.value.args and not last.value.keywords):
+            raise Unsupported("returned generator shape")
+        for sub in ast.walk(g):
+            if isinstance(sub, (ast.Nonlocal, ast.Global)) or (isinstance(sub, ast.Name) and sub.id == gname):
+                raise Unsupported("returned generator shape")
+        if not any(isinstance(sub, (ast.Yield, ast.YieldFrom)) for sub in ast.walk(g)):
+            raise Unsupported(f"{gname} is not a generator")
+        pre = body[:-2]
+        for x in pre:
+            for sub in ast.walk(x):
+                if (isinstance(sub, ast.Name) and sub.id == gname) or \
+                        isinstance(sub, (ast.Yield, ast.YieldFrom, ast.FunctionDef, ast.Lambda)):
+                    raise Unsupported("returned generator shape")
+
+        class R(ast.NodeTransformer):
+            def visit_Return(self, node):
+                if node.value is None:
+                    raise Unsupported("bare return before the returned generator")
+                return [ast.Expr(value=ast.YieldFrom(value=node.value)), ast.Return(value=None)]
+        pre = [R().visit(x) for x in pre]
+        out = []
+        for x in pre:
+            out.extend(x if isinstance(x, list) else [x])
+        return [ast.fix_missing_locations(x) for x in out] + list(g.body)
 
     def check_class_fields(self, rd):
         """every attribute any method of the class stores on self is a declared field of the record"""
